@@ -245,6 +245,66 @@ def rule_p5(ctx, F):
     text_gate(ctx, "P5", fn, clamp, [("the start is raised to the parent's start exactly when it lies before it", [((".start_byte < (*", ").start_byte)"), True)])], accept_desc="raising the range start")
 
 
+def rule_p6(ctx, F):
+    """P6: an injection that does not include children excludes *all* children of its content node — named or
+    anonymous (e.g. the quotes of a string whose inside is the injected document).  In intersect_ranges every content
+    node has its children walked (Node::children) unless `includes_children` is set, and the closure that turns a child
+    into an excluded range drops a child only when `includes_children` is set."""
+    from C15 import FoldAll, loop_switch_of, origin_calls
+    fn = find_fn(ctx, F, "HighlightIterLayer::intersect_ranges", "P6")
+    if not fn:
+        return
+    nodes_param = fn.params[1]["name"] if len(fn.params) > 1 else "nodes"
+    nxt = [pt for pt, c, d in calls_named(fn, "Iterator::next") if "slice::Iter" in ((c.get("targs") or "") + (c.get("fn") or "")) and "Node" in (c.get("targs") or "")]
+    walks = [pt for pt, c, d in calls_named(fn, "Node", "::children")]
+    if len(nxt) != 1 or not walks:
+        ctx.bad("P6", "intersect_ranges:children-walked", "intersect_ranges: expected one loop over the content nodes that walks each node's children (found %d loop(s), %d Node::children call(s))" % (len(nxt), len(walks)))
+        return
+    sw = loop_switch_of(fn, nxt[0])
+
+    class M(FoldAll):
+        def edge(self, m, bid, edge, cond, truth, s):
+            if cond is not None and truth is not None and m[0]:
+                txt, t = rsrules.cond_text(fn, cond, truth)
+                if "includes_children" in txt and t is True and "(" not in txt.replace("(*", ""):
+                    return (m[0], True)        # the licensed skip
+            return FoldAll.edge(self, m, bid, edge, cond, truth, s)
+    sr = Search(fn, M(fn, sw, walks), budget=3000000)
+    v = sr.run((False, False)) if sw is not None else Viol("loop switch not found")
+    if v is None:
+        ctx.ok("P6", "intersect_ranges:children-walked", "every content node has its children walked unless includes_children is set (%d states)" % sr.states, sample={"loop": fn.loc(nxt[0]), "walk": fn.loc(walks[0])})
+    else:
+        ctx.bad("P6", "intersect_ranges:children-walked", "intersect_ranges: a content node is passed over without walking its children although includes_children is not set (%s): children that are "
+                "anonymous tokens (quotes, delimiters) stay inside the injected document and are highlighted by the injected language" % v.msg, {"path": sr.render_path(v.path)[-6:] if v.path else []})
+    cl = [f for f in F.fn_list if f.name.startswith(fn.name + "::{closure") and calls_named(f, "Node", "::range")]
+    if len(cl) == 1:
+        g = cl[0]
+        nones = [pt for pt, e in g.points() for x in own_walk(e) if x.get("k") == "assign" and show(x["l"]) == "_0" and not (strip(x["r"]).get("k") == "agg" and strip(x["r"]).get("variant") == "Some")]
+        if nones:
+            text_gate(ctx, "P6", g, nones, [("a child is kept in the injected document only when includes_children is set", [(("includes_children",), True), (("_1",), True)])], accept_desc="dropping a child's range from the exclusions")
+        else:
+            ctx.ok("P6", "intersect_ranges:child-closure-excludes-all", "the child closure always yields the child's range")
+    else:
+        ctx.bad("P6", "intersect_ranges:child-closure", "expected one closure of intersect_ranges mapping a child to its range, found %d" % len(cl))
+
+
+def rule_p7(ctx, F):
+    """P7: every layer is parsed from scratch.  The Highlighter keeps one Parser; a highlight run cancelled while parsing
+    leaves an outstanding parse in it.  Before every parse call in HighlightIterLayer::new the parser was reset by
+    Parser::set_language (or Parser::reset) in the same loop iteration, so the next document is not a continuation."""
+    fn = find_fn(ctx, F, "HighlightIterLayer::new", "P7")
+    if not fn:
+        return
+    use = [pt for pt, c, d in calls_named(fn, "Parser", "::parse")]
+    rst = [pt for pt, c, d in calls_named(fn, "Parser", "::reset")] + [pt for pt, c, d in calls_named(fn, "Parser", "::set_language")]
+    ctx.floor("parse calls in HighlightIterLayer::new", len(use), 1)
+    if not rst:
+        ctx.bad("P7", "new:parser-reset-before-parse", "HighlightIterLayer::new parses without resetting the parser or assigning the language first")
+        return
+    # re-armed by the loop: reaching a parse call again requires passing the reset again
+    ctx.before("P7", "new:parser-reset-before-parse", fn, use, rst, "the parser is reset (set_language) before each layer is parsed", reset_pts=use)
+
+
 def rule_l1(ctx, F):
     """L1: a name resolved as a local reference is highlighted like its definition: the emitted
     highlight is `reference_highlight.or(current_highlight)`; a definition's slot receives the highlight
@@ -389,6 +449,8 @@ def run(ctx):
     rule_p3(ctx, F)
     rule_p4(ctx, F)
     rule_p5(ctx, F)
+    rule_p6(ctx, F)
+    rule_p7(ctx, F)
     rule_l1(ctx, F)
     rule_g2(ctx, F)
     return ctx.finish(
